@@ -656,6 +656,102 @@ def case_hub(seed):
     return {"viol": viol, "n": 2}
 
 
+def observe_units(item):
+    cap = observe.Captured()
+    project, cap = observe.parse_and_correlate([item["root"]], cap=cap)
+    res = {}
+
+    def callid(c):
+        if isinstance(c, str):
+            return "unresolved:" + c.lower()
+        owner = getattr(c, "parent", None)
+        if type(owner).__name__ == "FortranType":
+            return f"{ent_id(owner)}%{c.name.lower()}"
+        return ent_id(c)
+
+    scopes = list(project.programs) + list(project.blockdata) + list(project.procedures) + [q for m in project.modules for q in m.subroutines]
+    for p in scopes:
+        if not p.name.lower().startswith("uprobe"):
+            continue
+        r = {"calls": sorted(callid(c) for c in getattr(p, "calls", []))}
+        for v in list(p.variables) + [x for c in getattr(p, "common", []) for x in c.variables if not isinstance(x, str)]:
+            if v.name.lower() == "bv":
+                r["type"] = ent_id(v.proto[0]) if v.proto else "absent"
+        res[p.name.lower()] = r
+    return {"res": res, "diags": [w for w in cap.warnings if "Error parsing" in w], "files_order": [f.name for f in project.files]}
+
+
+def case_units(seed):
+    """A variable imported by USE keeps the type its declaring module gave it, whatever the type's name means in the importing scope
+    (call of a type-bound procedure through the imported variable); and every kind of program unit - also BLOCK DATA - obtains names from its USE statements."""
+    rng = random.Random(seed)
+    S = seed % 9973
+    sh, oc, rl = f"ush{S}", f"uoc{S}", f"url{S}"
+    files = {}
+    files[sh] = "\n".join([f"module {sh}", "implicit none"] + (["private", "public :: surface, canvas"] if rng.random() < 0.5 else []) + [
+        "type surface", "integer :: depth = 0", "contains", "procedure :: paint => paint_surface", "end type surface", "type(surface) :: canvas", "contains",
+        "subroutine paint_surface(self)", "class(surface), intent(in) :: self", "end subroutine paint_surface", f"end module {sh}"]) + "\n"
+    files[oc] = "\n".join([f"module {oc}", "implicit none", "type surface", "contains", "procedure :: paint => paint_water", "end type surface",
+                           "type waves", "contains", "procedure :: paint => paint_waves", "end type waves", "contains",
+                           "subroutine paint_water(self)", "class(surface), intent(in) :: self", "end subroutine paint_water",
+                           "subroutine paint_waves(self)", "class(waves), intent(in) :: self", "end subroutine paint_waves", f"end module {oc}"]) + "\n"
+    via = rng.choice([sh, rl])
+    if via == rl:
+        files[rl] = f"module {rl}\nuse {sh}\nimplicit none\nend module {rl}\n"
+    vform = rng.choice(["plain", "only", "only_rename", "rename"])
+    vname = "board" if "rename" in vform else "canvas"
+    vuse = {"plain": f"use {via}", "only": f"use {via}, only: canvas", "only_rename": f"use {via}, only: board => canvas", "rename": f"use {via}, board => canvas"}[vform]
+    decoy = rng.choice(["none", "only", "rename", "own_type"]) if vform in ("only", "only_rename") else rng.choice(["none", "none", "own_type"]) if vform == "plain" or vform == "rename" else "none"
+    if vform in ("plain", "rename"):
+        decoy = "none"  # (the name `surface` itself is imported: a second meaning would be a conflict)
+    duse = {"none": [], "only": [f"use {oc}, only: surface"], "rename": [f"use {oc}, surface => waves"], "own_type": []}[decoy]
+    uses = [vuse] + duse
+    if rng.random() < 0.5:
+        uses.reverse()
+    unit = rng.choice(["program", "module_procedure", "external"])
+    own = ["type surface", "contains", "procedure, nopass :: paint => paint_own", "end type surface"] if decoy == "own_type" else []
+    body = ["implicit none"] + own + [f"call {vname}%paint()"]
+    if unit == "program":
+        L = [f"program uprobe{S}"] + uses + body + (["contains", "subroutine paint_own()", "end subroutine paint_own"] if own else []) + [f"end program uprobe{S}"]
+    elif unit == "external":
+        L = [f"subroutine uprobe{S}()"] + uses + body + (["contains", "subroutine paint_own()", "end subroutine paint_own"] if own else []) + [f"end subroutine uprobe{S}"]
+    else:
+        L = [f"module ucm{S}", "implicit none", "contains", f"subroutine uprobe{S}()"] + uses + body + (["contains", "subroutine paint_own()", "end subroutine paint_own"] if own else []) + [f"end subroutine uprobe{S}", f"end module ucm{S}"]
+    files["consumer"] = "\n".join(L) + "\n"
+    # BLOCK DATA unit with a USE statement
+    tform = rng.choice(["plain", "only", "only_rename", "rename"])
+    tname = "lt" if "rename" in tform else "surface"
+    tuse = {"plain": f"use {via}", "only": f"use {via}, only: surface", "only_rename": f"use {via}, only: lt => surface", "rename": f"use {via}, lt => surface"}[tform]
+    files["bdata"] = "\n".join([f"block data uprobebd{S}", tuse, "implicit none", f"type({tname}) :: bv", f"common /ucb{S}/ bv", f"end block data uprobebd{S}"]) + "\n"
+    names = list(files)
+    rng.shuffle(names)
+    base = core.mktemp("vf_c06u_")
+    try:
+        root = os.path.join(base, "src")
+        os.makedirs(root)
+        for rank, n in enumerate(names):
+            open(os.path.join(root, f"f{rank}_{n}.f90"), "w").write(files[n])
+        st, r = core.run_alone(observe_units, {"root": root}, timeout=120)
+    finally:
+        shutil.rmtree(base, ignore_errors=True)
+    if st != "ok":
+        return {"viol": [{"kf": {"kind": "harness_" + st}, "w": {"detail": str(r)[-500:], "seed": seed, "files": files}}], "n": 0, "feat": None}
+    viol = []
+    got = r["res"].get(f"uprobe{S}", {})
+    want = f"{sh}::surface%paint"
+    if got.get("calls") != [want]:
+        viol.append({"kf": {"kind": "wrong_entity" if any("%" in c for c in got.get("calls", [])) else "accessible_not_resolved", "entity_kind": "binding_through_imported_variable",
+                            "consumer_use_form": vform, "probe_where": unit + ":decoy_" + decoy, "explained_by_per_statement_use_semantics": False},
+                     "w": {"expected": [want], "observed": got.get("calls"), "seed": seed, "files": files, "parse_order": r["files_order"]}})
+    gotb = r["res"].get(f"uprobebd{S}", {})
+    wantb = f"{sh}::surface"
+    if gotb.get("type") != wantb:
+        viol.append({"kf": {"kind": "accessible_not_resolved" if "::" not in str(gotb.get("type")) else "wrong_entity", "entity_kind": "type", "consumer_use_form": tform,
+                            "probe_where": "block_data", "explained_by_per_statement_use_semantics": False},
+                     "w": {"expected": wantb, "observed": gotb.get("type", "absent"), "seed": seed, "files": files, "parse_order": r["files_order"]}})
+    return {"viol": viol, "n": 2, "feat": f"{unit}/{vform}/{decoy}/{tform}"}
+
+
 def all_shapes(nprov):
     nodes = nprov + 1
     pairs = [(i, j) for j in range(nodes) for i in range(j)]
@@ -688,7 +784,7 @@ def main():
     if rp:
         w = json.load(open(rp))
         a = w["witness"]["arg"]
-        r = case_same_text(a[1]) if a[0] == "same_text" else case_hub(a[1]) if a[0] == "hub" else case((a[0], frozenset(tuple(e) for e in a[1]), a[2], a[3], a[4], tuple(a[5])))
+        r = case_same_text(a[1]) if a[0] == "same_text" else case_hub(a[1]) if a[0] == "hub" else case_units(a[1]) if a[0] == "units" else case((a[0], frozenset(tuple(e) for e in a[1]), a[2], a[3], a[4], tuple(a[5])))
         known = core.load_known(PID)
         bad = [v for v in r["viol"] if core.match_known(known, v["kf"]) is None]
         print("replay:", "VIOLATION" if bad else "held")
@@ -746,11 +842,24 @@ def main():
         for v in r["viol"]:
             v["w"]["arg"] = ["hub", sd]
             run.violation(v["kf"], v["w"])
+    seeds4 = [run.seed * 15485863 + i for i in range(600 if thorough else 120)]
+    for sd, (st, r) in zip(seeds4, core.fork_map(case_units, seeds4, per_case_fork=False, case_timeout=300)):
+        if st != "ok":
+            run.inconc(f"units {st}: {str(r)[-300:]}")
+            continue
+        run.case(key=f"units{sd}", nontrivial=True)
+        run.count("probes_compared_through_imported_variable_and_block_data", r["n"])
+        if r.get("feat"):
+            run.seen("unit_x_use_form_x_decoy", r["feat"])
+        for v in r["viol"]:
+            v["w"]["arg"] = ["units", sd]
+            run.violation(v["kf"], v["w"])
     run.extra["module_graph_shapes"] = len(shapes_seen)
     run.extra["exhaustive"] = False
     run.extra["exhaustive_part"] = "all DAG shapes over <=3 provider modules + consumer (72 shapes); decoration and file orders sampled" + (" (all permutations in thorough)" if thorough else "")
     run.max_samples = 2
-    run.finish(floors={"evaluations": 200, "distinct_nontrivial": 60, "probes_compared": 2000, "probes_of_inaccessible_names": 300, "use_forms": 6, "file_orders": 10, "probes_compared_identical_only_text": 100, "probes_compared_after_hub": 100})
+    run.finish(floors={"evaluations": 200, "distinct_nontrivial": 60, "probes_compared": 2000, "probes_of_inaccessible_names": 300, "use_forms": 6, "file_orders": 10, "probes_compared_identical_only_text": 100, "probes_compared_after_hub": 100,
+                      "probes_compared_through_imported_variable_and_block_data": 200, "unit_x_use_form_x_decoy": 30})
 
 
 if __name__ == "__main__":
